@@ -1120,12 +1120,28 @@ func zGenFormats(rng *rand.Rand) map[string]interface{} {
 	return f
 }
 
+// zPickOnly: every generated requirement is a pick rule with only count and/or max (none of them "demands" a
+// credential through `all` or `min`; whether credentials are required then hangs on the input descriptors)
+var zPickOnly bool
+
 func zGenSR(rng *rand.Rand, groups []string, depth int, feat map[string]int, force string) map[string]interface{} {
 	s := map[string]interface{}{}
 	if rng.Intn(3) == 0 {
 		s["name"] = "sr" + strconv.Itoa(rng.Intn(9))
 	}
-	if rng.Intn(2) == 0 {
+	if zPickOnly {
+		s["rule"] = "pick"
+		switch rng.Intn(3) {
+		case 0:
+			s["count"] = 1 + rng.Intn(2)
+		case 1:
+			s["max"] = 1 + rng.Intn(2)
+		case 2:
+			s["count"] = 1 + rng.Intn(2)
+			s["max"] = rng.Intn(3)
+		}
+		feat["sr:pick-only"]++
+	} else if rng.Intn(2) == 0 {
 		s["rule"] = "all"
 		feat["sr:all"]++
 	} else {
@@ -1285,6 +1301,11 @@ func zGenDef(rng *rand.Rand, creds []vc.VerifiableCredential, feat map[string]in
 	def["input_descriptors"] = ds
 	if useSR {
 		srs := []interface{}{}
+		zPickOnly = rng.Intn(4) == 0
+		if zPickOnly {
+			feat["mode:pick-only-requirements"]++
+		}
+		defer func() { zPickOnly = false }()
 		used := []string{}
 		for _, d := range ds {
 			if g, ok := d.(map[string]interface{})["group"].([]interface{}); ok {
@@ -1445,7 +1466,16 @@ func TestVerifC12(t *testing.T) {
 			r.opMatch(w)
 			r.walletFlow(rng, w, n)
 		}
-		if rng.Intn(4) == 0 {
+		if len(r.pd.SubmissionRequirements) > 0 && rng.Intn(2) == 0 {
+			// wallets that usually cannot fulfil the requirements: empty, or a single credential
+			w := []int{}
+			if rng.Intn(2) == 0 {
+				w = []int{rng.Intn(n)}
+			}
+			r.opMatch(w)
+			r.walletFlow(rng, w, n)
+		}
+		if rng.Intn(4) == 0 || (len(r.pd.SubmissionRequirements) > 0 && rng.Intn(3) == 0) {
 			r.arbitraryEnvelope(rng, n)
 		}
 	}
@@ -1553,6 +1583,9 @@ func (r *zRun) arbitraryEnvelope(rng *rand.Rand, n int) {
 			}
 		}
 	}()
+	if rng.Intn(2) == 0 {
+		r.opValidate(envRaw, []zMapping{}, "arbitrary-empty-map")
+	}
 	if len(sub) == 0 || rng.Intn(3) == 0 {
 		sub = []zMapping{}
 		for _, d := range r.pd.InputDescriptors {
